@@ -9,6 +9,11 @@ Value hypotheses (all explicit, never axioms):
 * `UpdClosed G m` : `G` is closed under the Lance–Williams update of method `m` as `generic.rs`
                  calls it (positive cluster sizes; merged distance in `G` where the method reads it).
                  Proved outright for `single` and `complete` (`updClosed_single/complete`).
+                 NOT needed by the invariants any more: the update lemmas (`genericUpdate_ok'`,
+                 `genericUpdate_lb'`) ask only that the values THIS update writes are good
+                 (`UpdGoodAt`, `Lemmas/GenericInvUpdate.lean`); `UpdClosed` implies that
+                 (`updGoodAt_of_updClosed`), as do the run-dependent hypotheses `Spec.RunGood`
+                 (`Lemmas/SpecRunGood.lean`) and `GenericRunGood` (`Lemmas/GenericRun.lean`).
 -/
 import Kodama.Model.Generic
 import Kodama.Lemmas.PrimInv
@@ -115,12 +120,13 @@ theorem MGood.get {G : α → Prop} {n : Nat} {M : Mat α} (chk : Bool) (hM : MG
 
 theorem MGood.update {G : α → Prop} {n : Nat} {M : Mat α} (chk : Bool) (hM : MGood G n M)
     (upd : Nat → α → α → R α) (x ra ca rb cb : Nat)
-    (hupd : ∀ va vb, G va → G vb → ∃ v, upd x va vb = .ok v ∧ G v)
+    (hupd : ∀ va vb, M.get chk ra ca = .ok va → M.get chk rb cb = .ok vb →
+      ∃ v, upd x va vb = .ok v ∧ G v)
     (h1 : ra < ca) (h2 : ca < n) (h3 : rb < cb) (h4 : cb < n) :
     ∃ M', M.update chk upd x ra ca rb cb = .ok M' ∧ MGood G n M' := by
   obtain ⟨va, hva, gva⟩ := hM.get chk ra ca h1 h2
   obtain ⟨vb, hvb, gvb⟩ := hM.get chk rb cb h3 h4
-  obtain ⟨v, hv, gv⟩ := hupd va vb gva gvb
+  obtain ⟨v, hv, gv⟩ := hupd va vb hva hvb
   have h4' : cb < M.n := by rw [hM.mn]; exact h4
   have i1 := idxN_lt M.n rb cb h3 h4'
   have i2 := hM.valid.size
